@@ -1,6 +1,7 @@
 package gen
 
 import (
+	"bytes"
 	"crypto"
 	"crypto/rsa"
 	"crypto/sha256"
@@ -50,7 +51,7 @@ var CMSMutationClasses = []string{
 	"content_edit", "content_replace", "content_remove", "content_add",
 	"etype_change", "outer_oid_change", "attr_contenttype_change",
 	"certs_drop", "certs_replace", "certs_add",
-	"issuer_change", "serial_change", "serial_sign_edit", "unsigned_attrs_shadow_signed", "sig_length_edit", "sig_padding_malformed", "signer_id_key_identifier", "signed_attr_with_neighbour_oid", "signed_attr_with_neighbour_oid", "countersignature_added", "digest_attr_rewrite", "digest_attr_rewrite_and_content",
+	"issuer_change", "serial_change", "serial_sign_edit", "unsigned_attrs_shadow_signed", "sig_length_edit", "sig_padding_malformed", "signer_id_key_identifier", "signed_attr_with_neighbour_oid", "signed_attr_with_neighbour_oid", "countersignature_added", "sets_emptied", "algorithm_parameters_odd", "signed_attrs_without_digest", "digest_attr_rewrite", "digest_attr_rewrite_and_content",
 	"sig_flip", "sig_by_other_key", "digestalg_change", "sigalg_change", "null_params_toggle",
 	"second_signer", "outer_strip", "outer_add", "attrs_retag_set", "attrs_remove_all", "attrs_empty",
 	"foreign_content_and_signer", "foreign_content_and_signer", "issuer_string_retag",
@@ -264,6 +265,13 @@ func MutateCMS(t *rapid.T, blob []byte, env MutEnv) ([]byte, string) {
 		if err != nil {
 			return nil, na
 		}
+		if certs := sd.CertList(); len(certs) > 0 && !bytes.Equal(certs[0].RawSubject, certs[0].RawIssuer) && rapid.Bool().Draw(t, "subject_for_issuer") {
+			// the signer info names the embedded certificate by its subject (for a certificate issued by a CA that is
+			// another name than its issuer): it then names some other certificate, whatever the serial
+			if sn, serr := der.ParseOne(certs[0].RawSubject, der.Options{}); serr == nil {
+				oi = sn
+			}
+		}
 		s.IAS.Children[0] = oi.Clone()
 	case "issuer_string_retag":
 		// the same characters under another ASN.1 string type: another name as far as byte comparison goes
@@ -450,6 +458,43 @@ func MutateCMS(t *rapid.T, blob []byte, env MutEnv) ([]byte, string) {
 			return nil, na
 		}
 		s.Sig.Content = sig
+	case "signed_attrs_without_digest":
+		// made by the key holder: signed attributes that lack the messageDigest attribute, or carry it with no value or an
+		// empty one, under a good signature; the content may be anything then, so nothing binds it
+		if env.SignerKey == nil || s.Attrs == nil || s.Sig == nil || s.Attrs.Opaque {
+			return nil, na
+		}
+		how := rapid.IntRange(0, 2).Draw(t, "how")
+		var kept []*der.Node
+		found := false
+		for _, a := range s.Attrs.Children {
+			if a.IsSeq() && len(a.Children) >= 2 && der.EqualOID(a.Children[0], cms.OIDMessageDigest...) {
+				found = true
+				switch how {
+				case 0:
+					continue
+				case 1:
+					kept = append(kept, cms.Attr(cms.OIDMessageDigest, der.Octets(nil)))
+				default:
+					kept = append(kept, der.Seq(der.OID(cms.OIDMessageDigest...), der.Set()))
+				}
+				continue
+			}
+			kept = append(kept, a)
+		}
+		if !found {
+			return nil, na
+		}
+		s.Attrs.Children = kept
+		if sd.EContent0 != nil && rapid.Bool().Draw(t, "other_content") {
+			sd.EContent0.Children = []*der.Node{der.Octets(env.NewContent)}
+			sd.EContent0.Opaque, sd.EContent0.Content = false, nil
+		}
+		sig, err := cms.SignAttrs(env.SignerKey, s)
+		if err != nil {
+			return nil, na
+		}
+		s.Sig.Content = sig
 	case "countersignature_added":
 		// what a timestamping service adds: an unauthenticated attribute with a countersignature (PKCS#9, a SignerInfo
 		// with or without signed attributes), an RFC 3161 token or a nested signature. Not signed, so it changes nothing.
@@ -535,6 +580,41 @@ func MutateCMS(t *rapid.T, blob []byte, env MutEnv) ([]byte, string) {
 			return nil, na
 		}
 		s.SigAlg.Children[0].Content = der.OID(cms.OIDSHA256RSA...).Content
+	case "sets_emptied":
+		// the SET OF fields with nothing in them: no digest algorithms, no signer infos, both (the degenerate
+		// certificates-only form `openssl crl2pkcs7 -nocrl` writes), no certificates
+		which := rapid.SampledFrom([]int{1, 2, 3, 3, 4, 7}).Draw(t, "emptied")
+		for bit, n := range []*der.Node{sd.DigestAlgs, sd.SignerSet, sd.Certs} {
+			if which&(1<<uint(bit)) != 0 && n != nil {
+				n.Children, n.Content, n.Opaque = nil, nil, false
+			}
+		}
+	case "algorithm_parameters_odd":
+		// any AlgorithmIdentifier of the blob (those inside the encapsulated content included) gets parameters of
+		// another kind: absent, NULL, an empty OCTET STRING, an INTEGER, an empty SEQUENCE, a NULL with content
+		var algs []*der.Node
+		var walk func(n *der.Node)
+		walk = func(n *der.Node) {
+			if n == nil || !n.Constructed || n.Opaque {
+				return
+			}
+			if n.IsSeq() && len(n.Children) >= 1 && len(n.Children) <= 2 && n.Children[0].Is(der.ClassUniversal, der.TagOID) && (len(n.Children) == 1 || !n.Children[1].IsSet()) {
+				algs = append(algs, n)
+			}
+			for _, c := range n.Children {
+				walk(c)
+			}
+		}
+		walk(root)
+		if len(algs) == 0 {
+			return nil, na
+		}
+		a := algs[rapid.IntRange(0, len(algs)-1).Draw(t, "which_algorithm")]
+		params := []*der.Node{nil, der.Null(), der.Octets(nil), der.SmallInt(0), der.Seq(), der.Prim(der.TagNull, []byte{0}), der.OID(1, 2, 840, 113549, 1, 1, 1)}[rapid.IntRange(0, 6).Draw(t, "parameters")]
+		a.Children = a.Children[:1]
+		if params != nil {
+			a.Children = append(a.Children, params)
+		}
 	case "null_params_toggle":
 		for _, a := range []*der.Node{s.DigestAlg, s.SigAlg} {
 			if a == nil || !a.IsSeq() {
